@@ -324,6 +324,10 @@ func c09Final(w *world, evCh <-chan []*proto.Event, snap map[string]mkv, acked [
 		if !found {
 			fail("acknowledged-write-not-delivered", "%s on %s acknowledged at revision %d is missing from the delivered events %s", reqNames[op.Kind], op.Key, int64(op.Hdr)-base, evsString(evs))
 		}
+		// a read at the write's own revision is meaningful only while that revision is not below the compaction floor
+		if v, err := w.kv.KvStorage.Get(bg, []byte("/r/compact_key")); err == nil && len(v) == 8 && op.Hdr < binary.BigEndian.Uint64(v) {
+			continue
+		}
 		g, err := w.b.Get(bg, &proto.GetRequest{Key: []byte(op.Key), Revision: op.Hdr})
 		if err == nil && !op.Kind.isDelete() && !kvEq(g.Kv, op.Val, op.Hdr) {
 			fail("acknowledged-write-not-durable", "%s on %s acknowledged at revision %d: a read at that revision returns %v", reqNames[op.Kind], op.Key, int64(op.Hdr)-base, g.Kv)
